@@ -180,5 +180,6 @@ def search(ctx, divergences):
 def sanity(ctx):
     from tcv.core import BrokenCheck
     c = ctx.counts
-    if c.get('op:chain_force', 0) < ctx.evaluations or c.get('op:force', 0) < ctx.evaluations:
+    # (thresholds with a wide margin: the mean is about one chain_force and two to three force operations per history)
+    if c.get('op:chain_force', 0) < 0.4 * ctx.evaluations or c.get('op:force', 0) < 0.8 * ctx.evaluations:
         raise BrokenCheck(f'generator distribution collapsed: {c}')
